@@ -363,7 +363,9 @@ func extLitFamily() *core.Family {
 func arityFamily() *core.Family {
 	names := append(append([]string{}, ExtNames()...), "nope", "Decimal", "isipv4", "")
 	argsets := [][]*Expr{{}, {L(Str("1.0"))}, {L(Decimal(1)), L(Decimal(2))}, {L(Long(1)), L(Long(2)), L(Long(3))},
-		{L(IP4(1, 2, 3, 4, 32))}, {L(Datetime(0))}, {L(Duration(0))}, {L(Datetime(0)), L(Duration(1))}, {L(IP4(1, 2, 3, 4, 32)), L(IP4(1, 0, 0, 0, 8))}}
+		{L(IP4(1, 2, 3, 4, 32))}, {L(Datetime(0))}, {L(Duration(0))}, {L(Datetime(0)), L(Duration(1))}, {L(IP4(1, 2, 3, 4, 32)), L(IP4(1, 0, 0, 0, 8))},
+		// a first argument each constructor accepts, followed by surplus arguments
+		{L(Str("127.0.0.1")), L(Long(1))}, {L(Str("1.5")), L(Str("2.5"))}, {L(Str("2024-01-01")), Access(Var("context"), "a")}, {L(Str("1h")), L(Str("x")), L(Str("y"))}}
 	return &core.Family{
 		Name: "l1-ext-arity",
 		Desc: fmt.Sprintf("%d function names (22 known + unknown/misspelled) x %d argument lists (0..3 arguments)", len(names), len(argsets)),
@@ -374,6 +376,8 @@ func arityFamily() *core.Family {
 			if CheckExpr(t, "call:"+n, e, 2) {
 				t.Nontrivial()
 			}
+			// consumed by something that succeeds on any value
+			CheckExpr(t, "call==self:"+n, Bin(OEq, e, e), 2)
 			t.SampleF(e.String)
 		},
 	}
